@@ -357,6 +357,40 @@ def run(ck, facts):
                 bad_js.append(v.strip()[:70])
     ck.expect(not bad_js, "R1", "js/enum.js.jinja/non-contiguous-by-value", "", "the non-contiguous branch of the JS enum looks a variant up by its position in a derived array (%s): "
               "JS orders integer-like keys numerically, so positions and discriminants disagree" % bad_js[:2], "tool/templates/js/enum.js.jinja")
+    # Kotlin: the number a variant is emitted with is its own: the stored discriminant of that variant, or -- for the contiguous prefix, where they coincide -- the
+    # position enumerated together with the variant's name (same closure / pattern), never an index taken from an enclosing scope
+    nk = 0
+    for f in tool.fn_list:
+        if "hir" not in f or not f["path"].startswith("diplomat_tool::kotlin::"):
+            continue
+        binders = {}
+        for x in C.walk(C.fn_body(f)):
+            if x.get("k") == "closure":
+                for p_ in x.get("params", []):
+                    for bid in C.pat_bind_ids(p_):
+                        binders[bid] = id(x)
+            elif x.get("k") == "for":
+                for bid in C.pat_bind_ids(x.get("pat")):
+                    binders[bid] = id(x)
+            elif x.get("k") == "match":
+                for a_ in x["arms"]:
+                    for bid in C.pat_bind_ids(a_["pat"]):
+                        binders[bid] = id(a_)
+        for x in C.walk(C.fn_body(f)):
+            if x.get("k") == "struct" and (x.get("adt") or "").endswith("NonContiguousEnumVariant"):
+                flds = {fl["n"]: fl["e"] for fl in x["fields"]}
+                if "index" not in flds or "name" not in flds:
+                    continue
+                nk += 1
+                from_discr = any(y.get("k") == "field" and y.get("n") == "discriminant" for y in C.walk(flds["index"]))
+                idx_ids = {y.get("id") for y in C.walk(flds["index"]) if y.get("k") == "local"}
+                nm_ids = {y.get("id") for y in C.walk(flds["name"]) if y.get("k") == "local"}
+                same_binder = bool(idx_ids) and bool(nm_ids) and {binders.get(i_) for i_ in idx_ids} == {binders.get(i_) for i_ in nm_ids} and None not in {binders.get(i_) for i_ in idx_ids}
+                ck.expect(from_discr or same_binder, "R1", "kotlin::%s/variant-number#%d" % (f["name"], nk), "discriminant of the variant / position enumerated with its name",
+                          "a Kotlin enum variant is numbered with a value that belongs neither to it (its `.discriminant`) nor to its own position (an index bound with its name): when an enum "
+                          "stops being contiguous its earlier variants all get the same, wrong number", C.loc(f, x.get("ln")))
+    if nk < 3:
+        ck.bad("R1", "kotlin/variant-number-floor", "only %d NonContiguousEnumVariant constructions found (3 counted)" % nk)
     # Dart passes enums as signed 32-bit integers (negative discriminants come back sign-extended; rule of C07.R4)
     import c07
     c07.run(C.SubCheck(ck, "R4", "", ["R4"], key_re=r"fmt_enum_as_ffi"), facts)
